@@ -35,7 +35,16 @@ def block(spec):
         return M.DuplicateFieldKeyBlock(duplicate_keys=set(spec[1]), entry=inner)
     if k == "mwerror":
         inner = block(spec[1])
-        return M.MiddlewareErrorBlock(inner, ValueError("synthetic middleware error"))
+        kind = spec[2] if len(spec) > 2 else "ValueError"
+        if kind == "partial":
+            from bibtexparser.exceptions import PartialMiddlewareException
+            err = PartialMiddlewareException(["first reason", "second reason"])
+        elif kind == "invalidname":
+            from bibtexparser.middlewares.names import InvalidNameError
+            err = InvalidNameError("A, B, C, D", "Too many commas")
+        else:
+            err = ValueError("synthetic middleware error")
+        return M.MiddlewareErrorBlock(inner, err)
     raise ValueError(k)
 
 
